@@ -251,26 +251,80 @@ def zx_eval(d):
     return tensor.Functor(ob={PRO(1): 2}, ar=zx_box_array)(d)
 
 
+# --------------------------------------------------------------------------- alike diagrams (histories)
+
+# constants with at most three significant digits: c * (1 + t), |t| <= 3e-4, prints as c under
+# '{:.3g}' (half a unit of the third digit is at least 5e-4 relative)
+ALIKE_BASES = [0.123, 0.25, 1.37, 12.3, 31.4, -0.517, 2.5, 0.75, -1.5]
+
+
+class Tail:
+    """Perturbation of numeric constants: c -> c * (1 + u * 10**-(digits + 1)), u in +-[0.5, 3].
+    Variants made with different tails agree on the first `digits` significant digits of every
+    constant (digits = 3: they print alike under '{:.3g}'; 8: alike under numpy's repr of
+    float arrays; 2: they already differ in what is printed -- the neighbouring region)."""
+
+    def __init__(self, rng, digits):
+        self.rng, self.digits = rng, digits
+
+    def __call__(self, c):
+        if not c:
+            return c
+        u = self.rng.choice([-1, 1]) * self.rng.uniform(0.5, 3.0)
+        return float(c) * (1 + round(u, 3) * 10.0 ** -(self.digits + 1))
+
+
+def alike_variants(rng, k, make, mode=None):
+    """`k` diagrams that look alike, for checks of state carried between calls: the same
+    structural seed is given to `make(structure_rng, data_rng, tail)` k times;
+      mode 'tails:<n>'  -- equal expressions, numeric constants agreeing on n significant digits
+      mode 'data'       -- equal shape / names / types / gate classes, independent data
+      mode 'same'       -- the very same diagram built again (a distinct but equal object)
+    Returns (variants, mode)."""
+    import random
+    mode = mode or rng.choice(["tails:3"] * 5 + ["tails:2", "tails:5", "tails:9", "data", "data", "same"])
+    s, ds = rng.getrandbits(64), rng.getrandbits(64)
+    out = []
+    for _ in range(k):
+        own = random.Random(rng.getrandbits(64))
+        if mode == "data":
+            out.append(make(random.Random(s), own, None))
+        elif mode == "same":
+            out.append(make(random.Random(s), random.Random(ds), Tail(random.Random(ds), 3)))
+        else:
+            out.append(make(random.Random(s), random.Random(ds), Tail(own, int(mode.split(":")[1]))))
+    return out, mode
+
+
 # --------------------------------------------------------------------------- generators
 
 class TensorGen:
     """Random tensor diagrams with symbolic boxes.  `spec` mirrors the diagram for the model
     stream when `polyonly` (integer polynomial entries, plain boxes and daggered boxes)."""
 
-    def __init__(self, rng, syms, polyonly=False, maxdim=8, ndarray_data=0.0):
+    def __init__(self, rng, syms, polyonly=False, maxdim=8, ndarray_data=0.0, data_rng=None, tail=None):
         self.rng, self.syms, self.polyonly, self.maxdim = rng, syms, polyonly, maxdim
-        self.eg = ExprGen(rng, syms)
+        # data_rng (default: the structural rng): source of the box ENTRIES.  Two generators with
+        # equal `rng` seeds and different `data_rng` give diagrams of the same shape, box names,
+        # types, offsets and dagger flags whose data differ ("alike" diagrams, see `alike_variants`)
+        self.drng = data_rng or rng
+        self.eg = ExprGen(self.drng, syms)
+        # tail (default off): a `Tail`; numeric constants become c * tail() -- variants that agree
+        # on the leading significant digits of every constant
+        self.tail = tail
         self.ndarray_data = ndarray_data
         self.count = 0
         self.maxdeg = 2         # degree bound of the integer polynomials (polyonly)
         self.repeat = 0.0       # probability that a layer re-uses an EARLIER box (the same object)
 
     def entry(self, p_sym):
-        r = self.rng
+        r = self.drng
         if r.random() < p_sym:
             if self.polyonly:
                 return self.eg.int_poly(self.maxdeg)
             return r.choice([self.eg.affine, self.eg.poly, self.eg.poly, self.eg.nonlinear])()
+        if self.tail is not None:
+            return self.tail(r.choice(ALIKE_BASES + [0, 1]))
         return r.choice([0, 0, 1, 1, 2, -1])
 
     def box(self, dom, cod, symbolic=True):
@@ -282,8 +336,9 @@ class TensorGen:
         p = (0.45 if symbolic else 0.0)
         flat = [self.entry(p) for _ in range(size)]
         if symbolic and not any(hasattr(e, "free_symbols") and e.free_symbols for e in flat):
-            flat[r.randrange(size)] = self.eg.int_poly(self.maxdeg) + r.choice(self.syms) if self.polyonly \
-                else self.eg.affine() + r.choice(self.syms) * 2
+            dr = self.drng
+            flat[dr.randrange(size)] = self.eg.int_poly(self.maxdeg) + dr.choice(self.syms) if self.polyonly \
+                else self.eg.affine() + dr.choice(self.syms) * 2
         name = "f%d" % self.count
         self.count += 1
         d0, c0 = (cod, dom) if dagger else (dom, cod)       # the un-daggered box
@@ -387,12 +442,18 @@ ROT2 = ["CRz", "CRx", "CU1"]
 
 class CircuitGen:
     def __init__(self, rng, syms, mixed=False, max_qubits=2, rot2=True, classical=True,
-                 scalars=True, bits=0.15, ket=0.6, repeat=0.0):
+                 scalars=True, bits=0.15, ket=0.6, repeat=0.0, numeric=0.0, tail=None, data_rng=None):
         # repeat: probability that a parametrised gate is an EARLIER one again (the same object:
         # equal class and phase expression) at a random position
         self.repeat = repeat
         self.rng, self.syms, self.mixed, self.max_qubits = rng, syms, mixed, max_qubits
-        self.eg = ExprGen(rng, syms)
+        # data_rng (default: the structural rng): source of the phase EXPRESSIONS; numeric: the
+        # probability that a phase / scalar is a plain number (a constant gate) instead of an
+        # expression; tail: a `Tail` applied to those numbers.  All default-off: the case stream
+        # of callers that do not set them is unchanged.
+        self.drng = data_rng or rng
+        self.numeric, self.tail = numeric, tail
+        self.eg = ExprGen(self.drng, syms)
         self.rot2, self.classical, self.scalars, self.bits = rot2, classical, scalars, bits
         self.ket = ket
 
@@ -403,6 +464,14 @@ class CircuitGen:
         from discopy.quantum.gates import scalar, sqrt, MixedScalar, ClassicalGate, Copy
         r = self.rng
         phase = phase or self.eg.phase
+        if self.numeric:
+            symbolic_phase, dr = phase, self.drng
+
+            def phase():
+                if r.random() < self.numeric:
+                    c = dr.choice(ALIKE_BASES)
+                    return self.tail(c) if self.tail is not None else c
+                return symbolic_phase()
         rots = dict(Rx=Rx, Ry=Ry, Rz=Rz, CRz=CRz, CRx=CRx, CU1=CU1)
         nq = r.randint(1, self.max_qubits)
         if r.random() < self.ket:
@@ -573,9 +642,11 @@ def repeated_gate_circuit(rng, syms, two_qubit_rotations=True, max_qubits=3, sma
 
 
 class ZXGen:
-    def __init__(self, rng, syms):
+    def __init__(self, rng, syms, tail=None, data_rng=None):
         self.rng, self.syms = rng, syms
-        self.eg = ExprGen(rng, syms)
+        self.drng = data_rng or rng
+        self.tail = tail        # a `Tail` applied to numeric phases / scalars (default off)
+        self.eg = ExprGen(self.drng, syms)
 
     def diagram(self, depth):
         from discopy.quantum import zx
@@ -596,10 +667,15 @@ class ZXGen:
                 if n - nin + nout > 3:
                     nout = 1
                 ph = self.eg.phase() if r.random() < 0.7 else r.choice([0, 0.5, 0.25, 1])
+                if self.tail is not None and not hasattr(ph, "free_symbols"):
+                    ph = self.tail(self.drng.choice(ALIKE_BASES))
                 b = r.choice([zx.Z, zx.X])(nin, nout, ph)
             elif k == "scalar":
                 off, nin, nout = r.randint(0, n), 0, 0
-                b = zx.scalar(self.eg.phase() if r.random() < 0.8 else 2)
+                sc = self.eg.phase() if r.random() < 0.8 else 2
+                if self.tail is not None and not hasattr(sc, "free_symbols"):
+                    sc = self.tail(self.drng.choice(ALIKE_BASES))
+                b = zx.scalar(sc)
             elif k == "had":
                 off, nin, nout = r.randrange(n), 1, 1
                 b = zx.Had()
